@@ -22,6 +22,7 @@ import (
 	"time"
 
 	"github.com/rs/zerolog/diode"
+	"github.com/rs/zerolog/zzverif/vatomic"
 	"github.com/rs/zerolog/zzverif/vsched"
 	"github.com/rs/zerolog/zzverif/vsync"
 )
@@ -149,6 +150,8 @@ type run struct {
 	hung      bool
 	cancelled bool
 	pblocked  bool
+	prevLive  bool
+	ptrAtLive int
 }
 
 func (r *run) producersIdle() bool {
@@ -223,7 +226,16 @@ func (r *run) step(name string, scripted bool) bool {
 		return false
 	}
 	r.refresh()
-	emit(implW, ev{"a": "Step", "t": name, "from": from, "to": l, "st": r.state()})
+	st := r.state()
+	emit(implW, ev{"a": "Step", "t": name, "from": from, "to": l, "st": st})
+	// when the message that is live at readIndex arrived there, how many slot operations the consumer had made: at a quiesce
+	// point the difference tells whether the consumer has looked at a slot SINCE that message became available
+	if live := liveAtRidx(st); live != r.prevLive {
+		r.prevLive = live
+		if live {
+			r.ptrAtLive = vatomic.PtrOpsOf("diode.NewWriter")
+		}
+	}
 	// producers never wait for anybody: a producer that is inside Write must be able to take its next step whatever the
 	// other goroutines are doing (no lock, no condition). Reported once per run.
 	if !r.pblocked {
@@ -270,17 +282,22 @@ func (r *run) quiesce(final bool) {
 		pbwoke = vsync.LastBroadcastN
 	}
 	e["pbwoke"] = pbwoke
-	if seqs, ok := st["seqs"].([]int64); ok && len(seqs) > 0 {
-		ridx := st["ridx"].(int64)
-		s := seqs[int(ridx)%len(seqs)]
-		e["liveAtRidx"] = s >= ridx
-		e["peek"] = true
-	} else {
-		e["liveAtRidx"] = false
-		e["peek"] = false
-	}
+	_, e["peek"] = st["seqs"].([]int64)
+	e["liveAtRidx"] = liveAtRidx(st)
+	// slot operations of the consumer since the live message arrived at readIndex: 0 in the recorded race (the consumer
+	// looked BEFORE the message was there, and parked)
+	e["cptr"] = vatomic.PtrOpsOf("diode.NewWriter") - r.ptrAtLive
 	obs(e)
 	r.lastQ = r.returned
+}
+
+func liveAtRidx(st ev) bool {
+	seqs, ok := st["seqs"].([]int64)
+	if !ok || len(seqs) == 0 {
+		return false
+	}
+	ridx := st["ridx"].(int64)
+	return seqs[int(ridx)%len(seqs)] >= ridx
 }
 
 func (r *run) maybeQuiesce() {
@@ -291,6 +308,7 @@ func (r *run) maybeQuiesce() {
 
 func play(sc Script) (hung bool) {
 	vsched.Reset()
+	vatomic.ResetPtrOps()
 	for k := range vsync.LastBroadcastWoke {
 		delete(vsync.LastBroadcastWoke, k)
 	}
